@@ -308,7 +308,7 @@ def check(its, site, ctx, where):
     except Exception as ex:  # noqa
         ctx.viol("harness:build", case, repr(ex), "built")
         return
-    if site == "Acl_grouped" and sum(it.remark.startswith("= ") for it in its) > 1:
+    if site in ("Acl_grouped", "Acl_loose_first") and sum(it.remark.startswith("= ") for it in its) > 1:
         return  # repeated heading: grouping itself merges blocks (C15)
     if site == "AceGroup" or site.startswith("Acl_mixed"):
         from cisco_acl import Ace
